@@ -23,10 +23,26 @@ def fresh_name(prefix: str) -> str:
 
 
 _idents = itertools.count(1)
+_site_counts = {}
+_site_used = {}
 
 
 def next_ident():
     return next(_idents)
+
+
+def site_ident(site: str) -> int:
+    """identity of an object created by library code: a function of the creation site and its occurrence number, so
+    that the same object has the same identity on both sides of a product proof regardless of other allocations"""
+    import zlib
+    k = _site_counts.get(site, 0) + 1
+    _site_counts[site] = k
+    key = f"{site}#{k}"
+    v = 5 * 10**6 + zlib.crc32(key.encode())
+    other = _site_used.setdefault(v, key)
+    if other != key:  # hash collision: fall back to a fresh number (never silently alias two objects)
+        v = 9 * 10**9 + next(_idents)
+    return v
 
 
 def reset_names():
@@ -34,6 +50,8 @@ def reset_names():
     _counter = itertools.count(1)
     _idents = itertools.count(1)
     _per_prefix.clear()
+    _site_counts.clear()
+    _site_used.clear()
 
 
 class Sym:
